@@ -367,6 +367,12 @@ def gen_request(rng, w, p, names):
             props["childsel"] = rng.randint(0, 2)       # one child of the addressed worker (needs pid; without: refused)
         elif rng.random() < p.get("childany", 0.0):
             props["childany"] = rng.randint(0, 9)       # a "child" that is somebody else's: another worker, a stranger
+    elif cmd == "add":
+        # a new watcher (or, sometimes, a name that is taken: refused), started by the request itself or left stopped
+        n = rng.choice(["n1", "n2", "n3", "N1"] if rng.random() < 0.85 else list(names))
+        props = {"name": n, "cmd": "simworker " + n.lower(), "start": rng.random() < 0.7, "waiting": waiting,
+                 "options": {"numprocesses": rng.choice([1, 2]), "graceful_timeout": rng.choice([0.1, 0.2]),
+                             "warmup_delay": rng.choice([0, 0.1, 0.2])}}
     elif cmd == "rm":
         props = {"name": name, "waiting": waiting, "nostop": rng.random() < 0.3}
     elif cmd == "quit":
